@@ -547,6 +547,72 @@ def search_budget_rule(rep, u, fname="bn_mod_sqrt"):
     return n
 
 
+def low_digit_read_rule(rep, fn):
+    """R-DIGITS: num[] holds `digits` significant digits; what lies above is stale storage (a zero has digits == 0 and *no*
+    defined num[0]).  A read of X.num[c] with constant c is reached only where X is known to have more than c digits: some
+    dominating test of bn_is_zero(X) / X.digits sends the 'zero' outcome away from the read."""
+    n = 0
+    # locals that hold X->digits (single definition)
+    digit_aliases = {}
+    for _p, _r, y, _ps in fn.nodes():
+        if y.get("k") == "bin" and y["op"] == "=" and core.strip_casts(y["x"]).get("k") == "ref" and core.strip_casts(y["x"]).get("dk") == "local":
+            r_ = core.strip_casts(y["y"])
+            if r_.get("k") == "mem" and r_.get("f") == "digits":
+                digit_aliases.setdefault(key(core.strip_casts(r_["b"])), set()).add(core.strip_casts(y["x"])["id"])
+    for pos, root, x, ps in fn.nodes():
+        if x.get("k") != "sub" or const_val(x["i"]) is None:
+            continue
+        b = core.strip_casts(x["b"])
+        if not (b.get("k") == "mem" and b.get("f") == "num"):
+            continue
+        par = ps[-1] if ps else None
+        if par is not None and par.get("k") == "bin" and par["op"].endswith("=") and par["op"] not in ("==", "!=", "<=", ">=") and core.strip_casts(par["x"]) is x:
+            continue                    # a store
+        if any(p_.get("k") == "un" and p_.get("op") == "&" for p_ in ps[-2:]):
+            continue                    # address taken (&X.num[0]): a pointer to the digit array, not a read
+        obj = core.strip_casts(b["b"])
+        okey = key(obj)
+        n += 1
+        inst = "low-digit-read:%s#%d" % (okey[:20], n)
+        desc = "%s: %s is read only where %s is known to be non-zero" % (fn.name, key(x), okey)
+        protected = False
+        for bid in fn.reachable_blocks():
+            c = fn.blocks[bid].cond
+            if c is None or len(fn.blocks[bid].succ) != 2:
+                continue
+            if not (fn.dominates(bid, pos[0]) or bid == pos[0]):
+                continue
+            atoms = []
+            for y, _ in walk(c):
+                if y.get("k") == "call" and y.get("fn") in ("bn_is_zero",) and okey.lstrip("&") in key(y["args"][0]).replace("&", "").replace("(", "").replace(")", ""):
+                    atoms.append((y, 1))          # value meaning 'is zero'
+                if y.get("k") == "mem" and y.get("f") == "digits" and key(core.strip_casts(y["b"])) == okey:
+                    atoms.append((y, 0))
+                if y.get("k") == "call" and y.get("fn") in ("bn_is_odd", "bn_is_one", "bn_is_pow2") and okey.lstrip("&") in key(y["args"][0]).replace("&", "").replace("(", "").replace(")", ""):
+                    atoms.append((y, 0))          # a zero is neither odd nor one: the predicate returns 0 for it
+                if y.get("k") == "ref" and y.get("dk") == "local" and y.get("id") in digit_aliases.get(okey, ()):
+                    atoms.append((y, 0))
+            if not atoms:
+                continue
+            if bid == pos[0]:
+                # same condition: protected if the read's operand is evaluated only after the zero test (short-circuit handled by CFG)
+                continue
+            try:
+                v = r_mpt.eval_expr(c, {id(a): z for a, z in atoms})
+            except r_mpt.Unknown:
+                continue
+            blk = fn.blocks[bid]
+            zero_edge = blk.succ[0] if v else blk.succ[1]
+            if zero_edge is None or pos[0] not in fn.reach_from([zero_edge], avoid=[bid]):
+                protected = True
+        if protected:
+            rep.proved("R-DIGITS", fn, inst, desc, "", x.get("ln"))
+        else:
+            rep.violated("R-DIGITS", fn, inst, desc, "no dominating test keeps a zero %s (digits == 0, num[] undefined) away from this read: the value depends on "
+                         "stale storage" % okey, x.get("ln"))
+    return n
+
+
 def norm_rule(rep, fn):
     """R-NORM: `digits` is the exact number of significant digits - bn_is_zero, bn_cmp and bn_calc_bits read it as such and
     every arithmetic routine re-derives it with bn_digits_calc_digits.  A store to X->digits through a bn_p parameter is
@@ -623,7 +689,7 @@ def run(rep, tier):
     us = driver.load_units(specs)
     rep.use_units(us)
     first = True
-    n_err = n_ts = n_div = n_sh = n_carry = n_dim = n_fresh = n_norm = n_cap = 0
+    n_err = n_ts = n_div = n_sh = n_carry = n_dim = n_fresh = n_norm = n_cap = n_ld = 0
     for (l, d, w) in cs:
         u = us[l]
         S, _ = r_err.status_functions(u)
@@ -642,6 +708,9 @@ def run(rep, tier):
             memsafe.unguarded_write_rule(rep, fn)
             nn_ = norm_rule(rep, fn)
             nca_ = cap_arg_rule(rep, u, fn)
+            nld_ = low_digit_read_rule(rep, fn)
+            if first:
+                n_ld += nld_
             if first:
                 n_norm += nn_
                 n_cap += nca_
@@ -672,6 +741,7 @@ def run(rep, tier):
     from props import c03
     c03.reduce_rule(rep, us[cs[0][0]])            # modular reduction: only a value strictly below the modulus is left alone
     rep.floor("destination (num, count) arguments", n_cap, 12)
+    rep.floor("constant-index digit reads", n_ld, 3)
     rep.floor("pure-result three-operand routines", alias_rule(rep, us[cs[0][0]]), 2)
     return driver.finish(
         rep, "other",
